@@ -330,8 +330,12 @@ def run_reencode(tier, acc):
                         if form:
                             apply_form_everywhere(sp, form)
                         spraw = sp.encode()
-                        again = bytes(USMSecurityParameters.decode(spraw))
-                        check("USMSecurityParameters", spraw, again, {"form": form, "i": i})
+                        try:
+                            again = bytes(USMSecurityParameters.decode(spraw))
+                            check("USMSecurityParameters", spraw, again, {"form": form, "i": i})
+                        except Exception as exc:  # noqa
+                            facts = {"object": "USMSecurityParameters", "form": form, "flags": fl}
+                            acc.violation({"kind": "well-formed-security-parameters-not-decodable", "detail": {**facts, "exception": repr(exc)[:200]}, "facts": facts, "case": {"reencode": "USMSecurityParameters"}})
                         m = snmp.v3_msg_node(2**31 - 1 - i, 65507 + i, fl | 4, 3, spraw, payload)
                         mraw = m.encode()
                         try:
